@@ -268,12 +268,13 @@ func nonNilI(xs []interface{}) []interface{} {
 // ---- entry points that accept a cache ----
 
 type entryCall struct {
-	Entry string   `json:"entry"` // schemaWithBase | schemaRoot | paramRoot | respRoot | spec | resolve | meta
-	Path  []string `json:"path"`  // element position in the root document
-	Ref   string   `json:"ref,omitempty"`
-	Skip  bool     `json:"skip,omitempty"`
-	Cont  bool     `json:"continue,omitempty"`
-	Abs   bool     `json:"absolute,omitempty"`
+	Entry  string   `json:"entry"` // schemaWithBase | schemaRoot | paramRoot | respRoot | spec | resolve | meta
+	Path   []string `json:"path"`  // element position in the root document
+	Ref    string   `json:"ref,omitempty"`
+	Skip   bool     `json:"skip,omitempty"`
+	Cont   bool     `json:"continue,omitempty"`
+	Abs    bool     `json:"absolute,omitempty"`
+	Refuse []string `json:"refuse,omitempty"` // URLs the loader refuses (isolated runs)
 }
 
 type entryResult struct {
@@ -643,6 +644,40 @@ func isolated(c *Ctx, hc histCall) (entryResult, error) {
 	return r, nil
 }
 
+// isolatedTimed: like isolated, but the child is killed after d (killed = true).
+func isolatedTimed(hc histCall, d time.Duration) (entryResult, error, bool) {
+	exe, err := os.Executable()
+	if err != nil {
+		return entryResult{}, err, false
+	}
+	in, _ := json.Marshal(hc)
+	cmd := exec.Command(exe, "-isolated")
+	cmd.Stdin = bytes.NewReader(in)
+	cmd.Env = append(os.Environ(), "GOMEMLIMIT=2GiB")
+	var out bytes.Buffer
+	cmd.Stdout = &out
+	if err := cmd.Start(); err != nil {
+		return entryResult{}, err, false
+	}
+	done := make(chan error, 1)
+	go func() { done <- cmd.Wait() }()
+	select {
+	case err := <-done:
+		if err != nil {
+			return entryResult{}, fmt.Errorf("%v: %s", err, clip(out.String())), false
+		}
+		var r entryResult
+		if err := json.Unmarshal(out.Bytes(), &r); err != nil {
+			return entryResult{}, err, false
+		}
+		return r, nil, false
+	case <-time.After(d):
+		_ = cmd.Process.Kill()
+		<-done
+		return entryResult{}, nil, true
+	}
+}
+
 // isolatedMain: `run -isolated` reads one histCall from stdin and prints its entryResult.
 func isolatedMain() {
 	var hc histCall
@@ -652,7 +687,11 @@ func isolatedMain() {
 	}
 	w := worldFromJSON(hc.World)
 	t := &tracer{}
-	r := runEntry(w, hc.Call, nil, tracedLoader(w, t, nil))
+	refuse := map[string]bool{}
+	for _, u := range hc.Call.Refuse {
+		refuse[u] = true
+	}
+	r := runEntry(w, hc.Call, nil, tracedLoader(w, t, refuse))
 	r.Loads = fetchesOf(t.events())
 	b, _ := json.Marshal(r)
 	os.Stdout.Write(b)
